@@ -192,17 +192,18 @@ func linkModel(r *core.Run) (inputs []linkInput, scheds map[string][]linkSchedul
 	// inputs x all interleavings (Enter is a step of its own, nothing is eager)
 	if r.Thorough() {
 		design("d2", 2, "PropsSmall", "CssSmall", "PresetSome", "ModesBoth", 1)
-		design("d3", 3, "PropsMid", "CssSmall", "PresetSome", "ModesBoth", 1)
+		design("d3", 3, "PropsMid", "CssSmall", "PresetSome", "ModesPlain", 1)
 		design("d3css", 3, "PropsSmall", "CssMid", "PresetNone", "ModesBoth", 0)
 		design("d3big", 3, "PropsBig", "CssNone", "PresetNone", "ModesPlain", 0)
-		design("d4", 4, "PropsSmall", "CssSmall", "PresetNone", "ModesBoth", 0)
+		design("d4", 4, "PropsSmall", "CssSmall", "PresetNone", "ModesPlain", 0)
 		design("d4err", 4, "PropsSmall", "CssNone", "PresetNone", "ModesPlain", 2)
 	} else {
-		design("d3", 3, "PropsSmall", "CssSmall", "PresetSome", "ModesBoth", 0)
-		design("d4", 4, "PropsSmall", "CssNone", "PresetNone", "ModesPlain", 1)
+		design("d3", 3, "PropsSmall", "CssSmall", "PresetNone", "ModesBoth", 0)
+		design("d3err", 3, "PropsSmall", "CssNone", "PresetSome", "ModesPlain", 1)
+		design("d4", 4, "PropsSmall", "CssNone", "PresetNone", "ModesPlain", 0)
 	}
 	// the shared log: every interleaving of the log writes of the pre / post segments
-	jobs = append(jobs, job{c: linkCfg{Name: "msgs3", N: 3, Props: "PropsNone", Css: "CssNone", Presets: "PresetNone", Modes: "ModesPlain", Msgs: "MsgAll", MaxErr: 1, Fair: true}})
+	jobs = append(jobs, job{c: linkCfg{Name: "msgs3", N: 3, Props: "PropsNone", Css: "CssNone", Presets: "PresetNone", Modes: "ModesPlain", Msgs: "MsgAll", MaxErr: r.Pick(0, 1), Fair: true}})
 	// schedules: the controlled steps, uncontrolled steps run to quiescence
 	for n := 2; n <= 4; n++ {
 		if n == 2 && !r.Thorough() {
@@ -231,7 +232,7 @@ func linkModel(r *core.Run) (inputs []linkInput, scheds map[string][]linkSchedul
 	neg("neg-calls0", "waitgroup", "{0, 1}", "deadlock Determinism")
 	core.Parallel(len(jobs), 4, func(k int) {
 		j := jobs[k]
-		res := runLinkTLC(r, j.c, 2, onCase(j.mode))
+		res := runLinkTLC(r, j.c, r.Pick(2, 3), onCase(j.mode))
 		if res == nil {
 			return
 		}
@@ -730,12 +731,15 @@ func linkReplay(r *core.Run, in linkReplayIn) (linkReplayOut, error) {
 			co.Traces = append(co.Traces, linkTraceOf(dir, rec.Take(), fmt.Sprintf("%s %s", input.key(), label)))
 		}
 		rec.Take()
-		res, hung := buildWatch(opts, 60*time.Second)
+		res, hung := buildWatch(opts, 30*time.Second)
 		add("ungated", res, nil, hung)
 		co.Errors, co.Warnings = len(res.Errors), len(res.Warnings)
 		mc, _ := json.Marshal(res.MangleCache)
 		co.Cache = string(mc)
 		for _, sc := range in.Scheds[ci] {
+			if hung {
+				break // the ungated build already hangs
+			}
 			var s *linkSched
 			if len(sc.Steps) > 0 && (sc.Steps[0].K == "S" || sc.Steps[0].K == "P") {
 				s = newLinkSched(dir, "link.start", "link.post")
@@ -744,14 +748,14 @@ func linkReplay(r *core.Run, in linkReplayIn) (linkReplayOut, error) {
 			}
 			fin := make(chan struct{})
 			go func() { s.run(sc); close(fin) }()
-			res, hung := buildWatch(opts, 60*time.Second)
+			res, hungS := buildWatch(opts, 30*time.Second)
 			select { // the build returned: the scheduler only has its last observation left
 			case <-fin:
 			case <-time.After(2 * time.Second):
 			}
 			s.close()
-			add("["+sc.String()+"]", res, s, hung)
-			if hung {
+			add("["+sc.String()+"]", res, s, hungS)
+			if hungS {
 				break
 			}
 		}
@@ -818,7 +822,7 @@ func runLinkPhase(r *core.Run, exes []string) []linkTrace {
 		}
 		r.Rand.Shuffle(len(sens), func(i, j int) { sens[i], sens[j] = sens[j], sens[i] })
 		r.Rand.Shuffle(len(rest), func(i, j int) { rest[i], rest[j] = rest[j], rest[i] })
-		want := map[int]int{2: r.Pick(3, 30), 3: r.Pick(18, 240), 4: r.Pick(6, 80)}[n]
+		want := map[int]int{2: r.Pick(0, 20), 3: r.Pick(18, 120), 4: r.Pick(6, 40)}[n]
 		take := append(sens[:min(len(sens), want*3/4+1)], rest[:min(len(rest), want/4+1)]...)
 		if len(take) > want {
 			take = take[:want]
@@ -833,7 +837,7 @@ func runLinkPhase(r *core.Run, exes []string) []linkTrace {
 	for i, in := range chosen {
 		ex := scheds[fmt.Sprintf("excl%d", in.N)]
 		lg := scheds[fmt.Sprintf("log%d", in.N)]
-		perInput[i] = append(append([]linkSchedule{}, pickScheds(r.Rand, ex, r.Pick(15, 105))...), pickScheds(r.Rand, lg, r.Pick(3, 40))...)
+		perInput[i] = append(append([]linkSchedule{}, pickScheds(r.Rand, ex, r.Pick(15, 60))...), pickScheds(r.Rand, lg, r.Pick(3, 20))...)
 	}
 	// children
 	nChildren := r.Pick(4, 8)
